@@ -204,6 +204,25 @@ def walk {σ : Type} (f : σ → J → σ) : Path → σ → J → σ
   | .desc :: rest, s, j => if j.isContainer then foldDesc (fun s c => walk f rest s c) s j else s
   | _ :: _, s, _ => s
 
+/-! ### scan: every node with the definite path that leads to it (`bag-scan`, `:scan`) -/
+
+mutual
+/-- the node itself, then its children in order, each with its path from the node -/
+def scan : J → List (Path × J)
+  | arr xs => ([], arr xs) :: scanL 0 xs
+  | obj kvs => ([], obj kvs) :: scanM kvs
+  | j => [([], j)]
+def scanL : Nat → List J → List (Path × J)
+  | _, [] => []
+  | i, x :: xs => (scan x).map (fun pv => (Step.idx i :: pv.1, pv.2)) ++ scanL (i + 1) xs
+def scanM : Members → List (Path × J)
+  | [] => []
+  | (k, v) :: kvs => (scan v).map (fun pv => (Step.key k :: pv.1, pv.2)) ++ scanM kvs
+end
+
+/-- `:leaves-only`: containers (empty ones included) are not reported -/
+def scanLeaves (j : J) : List (Path × J) := (scan j).filter (fun pv => !pv.2.isContainer)
+
 /-! ### set -/
 
 /-- the container ojg adds for a missing child, decided by the step that follows -/
